@@ -73,13 +73,44 @@ def inputs(tier, seed):
 OPTS = [{}, {"safe": True}, {"keep_imports": True}, {"preserve": frozenset({"f", "C", "x"})}, {"preserve": ("f", "y")}, {"preserve": ["x"], "safe": True}]
 
 
+MONITOR = {"calls": 0, "out_of_range": [], "end_before_start": 0, "installed": False}
+
+
+def install_position_monitor():
+    """run-time check of the ASSUMED precondition of core.get_charnos (the parser position contract of contracts/c_core_geometry.py) at its
+    real call sites: rules also pass nodes they built themselves.  lineno < 1 / col_offset < 0 index from the end of the line table
+    (the proved safety obligations are void there): reported.  end before start only occurs for insertions, whose end is not used: counted."""
+    from pyrefact import core
+    if MONITOR["installed"]:
+        return
+    real = core.get_charnos
+
+    def monitored(node, source, keep_first_indent=False):
+        MONITOR["calls"] += 1
+        ln = getattr(node, "lineno", None)
+        if isinstance(ln, int):
+            nl = max(len(source.splitlines(keepends=True)), 1)
+            if not (1 <= ln <= nl + 1) or getattr(node, "col_offset", 0) < 0:
+                MONITOR["out_of_range"].append(f"{type(node).__name__} lineno={ln} col_offset={getattr(node, 'col_offset', None)} in a text of {nl} lines")
+            elif getattr(node, "end_lineno", None) is not None and node.end_lineno < ln:
+                MONITOR["end_before_start"] += 1
+        return real(node, source, keep_first_indent)
+    core.get_charnos = monitored
+    MONITOR["installed"] = True
+
+
 def work(item):
     import pyrefact
     P.quiet()
+    install_position_monitor()
     kind, src, _ = item
     fails = []
     for kw in OPTS:
+        MONITOR["out_of_range"].clear()
         r = P.guarded(lambda s: pyrefact.format_code(s, **kw), src, 120)
+        if MONITOR["out_of_range"]:
+            fails.append({"cls": "position-contract:out-of-range", "what": f"format_code({','.join(sorted(kw)) or 'default'}): core.get_charnos was called with {MONITOR['out_of_range'][0]} "
+                          "(the index into the line table wraps around: the node is placed relative to the END of the text)"})
         tag = ",".join(sorted(kw)) or "default"
         if r[0] == "raises":
             fails.append({"cls": f"raises:{r[1].split(':')[0]}", "what": f"format_code({tag}) raised {r[1]}"})
@@ -135,11 +166,11 @@ def run(tier, seed):
     for (kind, src, _), rs in zip(items, res):
         for r in rs:
             fl.append({"id": f"{r['cls']}::{kind}::{P.sha(src)}", "cls": r["cls"], "input": src, "observed": f"[{kind}] " + r["what"], "output": r.get("output"),
-                       "required": "format_code returns a str, raises nothing, terminates; invalid input unchanged up to whitespace"})
+                       "required": "format_code returns a str, raises nothing, terminates; invalid input unchanged up to whitespace; positions handed to get_charnos lie inside the text"})
     kinds = {}
     for k, _, _ in items:
         kinds[k] = kinds.get(k, 0) + 1
-    out = [{"name": "c04-total", "function": "main.format_code", "contract": "str result, no exception, <= 120 s; invalid input handed back up to whitespace",
+    out = [{"name": "c04-total", "function": "main.format_code", "contract": "str result, no exception, <= 120 s; invalid input handed back up to whitespace; every node handed to core.get_charnos has 1 <= lineno <= lines + 1 and col_offset >= 0 (run-time check of the proof's assumed precondition)",
             "space": f"inputs by kind {kinds} x {len(OPTS)} option sets; adversarial expressions: {len(ADVERSARIAL)} x positions; last statements: {len(LAST_STATEMENTS)} x 7 containers x trailing newline or not",
             "bound": "enumerated families", "evaluations": len(items) * len(OPTS), "distinct_nontrivial": len({s for _, s, _ in items}), "exhaustive": False, "failures": P.cap(fl),
             "samples": [items[0][1], items[len(items) // 2][1]]}]
